@@ -287,6 +287,32 @@ func (t *c03) udpChain(r *rand.Rand) {
 		t.viol("encode:udpchain:payload(view)", "Frame.Payload() differs from the encoded payload", cs)
 		return
 	}
+	// every decoder of the layers the chain wrote: the Ethernet convenience views and the IP header views
+	var got string
+	if c.Guard("C03", func() any { return cs }, func() {
+		e := packet.Ether(out)
+		got = fmt.Sprintf("ether %x>%x %v>%v", []byte(e.Src()), []byte(e.Dst()), e.SrcIP(), e.DstIP())
+		if v6 {
+			i := frame.IP6()
+			got += fmt.Sprintf(" ip6 v%d %v>%v hop=%d next=%d len=%d", i.Version(), i.Src(), i.Dst(), i.HopLimit(), i.NextHeader(), i.PayloadLen())
+		} else {
+			i := frame.IP4()
+			got += fmt.Sprintf(" ip4 v%d %v>%v ttl=%d proto=%d len=%d ihl=%d", i.Version(), i.Src(), i.Dst(), i.TTL(), i.Protocol(), i.TotalLen(), i.IHL())
+		}
+	}) != nil {
+		return
+	}
+	want := fmt.Sprintf("ether %x>%x %v>%v", []byte(src), []byte(dst), sip, dip)
+	if v6 {
+		want += fmt.Sprintf(" ip6 v6 %v>%v hop=%d next=17 len=%d", sip, dip, ttl, 8+len(pl))
+	} else {
+		want += fmt.Sprintf(" ip4 v4 %v>%v ttl=%d proto=17 len=%d ihl=20", sip, dip, ttl, 28+len(pl))
+	}
+	if got != want {
+		t.viol("encode:udpchain:fields(header views)", fmt.Sprintf("the header views read back\n %s\nencoded was\n %s", got, want), cs)
+		return
+	}
+	c.Obs("chains_read_back_through_every_header_view", 1)
 	c.Class(fmt.Sprintf("udpchain v6=%v mode=%d ether=%d len=%s class=%s", v6, mode, emode, lenB(len(pl)), refPayloadName(wantID)))
 	if len(out) > 14+n3 {
 		c.Obs("padded_frames", 1)
